@@ -58,22 +58,25 @@ def otherHandSide (x n : Expr) : Option (BOp × Expr) :=
     else none
   | _ => none
 
+/-- the `switch op` of `facts.refine`: new lower bound, new upper bound, `changed` -/
+def refineRes (op : BOp) (lo hi cv : Int) : Int × Int × Bool :=
+  match op with
+  | .ne => if lo = cv then (lo + 1, hi, true) else if hi = cv then (lo, hi - 1, true) else (lo, hi, false)
+  | .lt => if hi ≥ cv then (lo, cv - 1, true) else (lo, hi, false)
+  | .le => if hi > cv then (lo, cv, true) else (lo, hi, false)
+  | .eq => (cv, cv, true)
+  | .ge => if lo < cv then (cv, hi, true) else (lo, hi, false)
+  | .gt => if lo ≤ cv then (cv + 1, hi, true) else (lo, hi, false)
+  | _ => (lo, hi, false)
+
 /-- one iteration of the loop of `facts.refine`; outer `none` = "inconsistent with fact" -/
 def refineStep (n : Expr) (nb : IR) (x : Expr) : Option IR :=
   match otherHandSide x n with
   | some (op, .const cv) =>
     match nb.lo, nb.hi with
     | some lo, some hi =>
-      let res : Int × Int × Bool :=
-        match op with
-        | .ne => if lo = cv then (lo + 1, hi, true) else if hi = cv then (lo, hi - 1, true) else (lo, hi, false)
-        | .lt => if hi ≥ cv then (lo, cv - 1, true) else (lo, hi, false)
-        | .le => if hi > cv then (lo, cv, true) else (lo, hi, false)
-        | .eq => (cv, cv, true)
-        | .ge => if lo < cv then (cv, hi, true) else (lo, hi, false)
-        | .gt => if lo ≤ cv then (cv + 1, hi, true) else (lo, hi, false)
-        | _ => (lo, hi, false)
-      if res.2.2 && res.1 > res.2.1 then none else some (mkIR res.1 res.2.1)
+      if (refineRes op lo hi cv).2.2 && (refineRes op lo hi cv).1 > (refineRes op lo hi cv).2.1 then none
+      else some (mkIR (refineRes op lo hi cv).1 (refineRes op lo hi cv).2.1)
     | _, _ => some nb
   | _ => some nb
 
